@@ -54,9 +54,9 @@ func main() {
 	defer os.RemoveAll(dir)
 
 	rep := &reporter{run: run, perSig: map[string]int{}}
-	nTexts := evid.Tiered(fl.Tier, 30000, 3000000)
-	nVals := evid.Tiered(fl.Tier, 20000, 1000000)
-	enumCap := evid.Tiered(fl.Tier, 12000, 400000)
+	nTexts := evid.Tiered(fl.Tier, 150000, 3000000)
+	nVals := evid.Tiered(fl.Tier, 100000, 1000000)
+	enumCap := evid.Tiered(fl.Tier, 40000, 400000)
 	hangBudget := evid.Tiered(fl.Tier, 6, 40) // per shard
 	minNontrivial := evid.Tiered(fl.Tier, 400, 1500)
 
